@@ -180,6 +180,48 @@ func minI(a, b int) int {
 	return b
 }
 
+// fragmentize splits a decodable IPv4 packet into 2-4 fragments, in order or
+// shuffled, with cut points that need not be multiples of 8 (so pieces overlap).
+func fragmentize(p pkt, r *fw.Rand) []pkt {
+	if p.Proto != rfc.EthIPv4 || len(p.Data) < 29 || p.Data[0] != 0x45 {
+		return []pkt{p}
+	}
+	var src, dst [4]byte
+	copy(src[:], p.Data[12:16])
+	copy(dst[:], p.Data[16:20])
+	proto, id := p.Data[9], uint16(p.Data[4])<<8|uint16(p.Data[5])
+	body := p.Data[20:]
+	n := 2 + r.Intn(3)
+	var out []pkt
+	start := 0
+	for i := 0; i < n && start < len(body); i++ {
+		end := start + 1 + r.Intn(len(body)-start)
+		if i == n-1 {
+			end = len(body)
+		}
+		f := rfc.IPv4{TTL: 64, Proto: proto, ID: id, Src: src, Dst: dst, FragOff: uint16(start / 8), Payload: body[start:end]}
+		if end < len(body) {
+			f.Flags = 1
+		}
+		out = append(out, pkt{rfc.EthIPv4, f.Bytes(true)})
+		// the next fragment starts on an 8-byte boundary at or before this one's end
+		start = (end / 8) * 8
+		if r.Chance(1, 3) && start >= 8 {
+			start -= 8
+		}
+		if start == 0 {
+			start = 8
+		}
+	}
+	if r.Chance(1, 3) {
+		for i := len(out) - 1; i > 0; i-- {
+			j := r.Intn(i + 1)
+			out[i], out[j] = out[j], out[i]
+		}
+	}
+	return out
+}
+
 // batch builds the frames of one batch.
 func batch(c *ctx, seed int64, idx int, n int) []pkt {
 	r := fw.NewRand(seed, "C07", "batch", idx)
@@ -195,6 +237,12 @@ func batch(c *ctx, seed int64, idx int, n int) []pkt {
 			out = append(out, pkt{[]uint16{rfc.EthIPv4, rfc.EthIPv6, rfc.EthARP}[r.Intn(3)], r.Bytes(l)})
 		case mode == 0 && r.Chance(1, 3): // valid traffic interleaved
 			out = append(out, corpus(c, r))
+		case mode == 1 && r.Chance(1, 2): // valid or lightly mutated packets delivered as (overlapping) fragments
+			p := corpus(c, r)
+			if r.Chance(1, 3) {
+				p = mutate(p, r, func() pkt { return corpus(c, r) })
+			}
+			out = append(out, fragmentize(p, r)...)
 		default:
 			p := corpus(c, r)
 			for k := 0; k < 1+r.Intn(3); k++ {
